@@ -364,6 +364,29 @@ func TestC18_Transform(t *testing.T) {
 			t.Fatalf("C18 resolution result differs")
 		}
 
+		// the same resolved state transformed again (cached state, other option set) gives the same result
+		got1b, err := tr.TransformDocument(rm, info)
+		if err != nil {
+			t.Fatalf("C18 second TransformDocument of the same state failed: %v", err)
+		}
+		rt1b, _ := jsonRoundTrip(got1b)
+		if refJCS(rt1b) != refJCS(want) {
+			gm, _ := rt1b.(map[string]interface{})
+			t.Fatalf("C18 transforming the same resolved state a second time gives another result\n got  %s\n want %s", refJCS(gm["didDocument"]), refJCS(want["didDocument"]))
+		}
+		o2 := o
+		o2.base = !o.base
+		tr2 := didtransformer.New(append(append([]didtransformer.Option{}, opts...), didtransformer.WithBase(o2.base))...)
+		got1c, err := tr2.TransformDocument(rm, info)
+		if err != nil {
+			t.Fatalf("C18 TransformDocument (other base option) of the same state failed: %v", err)
+		}
+		rt1c, _ := jsonRoundTrip(got1c)
+		if w2 := refTransform(s, o2); refJCS(rt1c) != refJCS(w2) {
+			gm, _ := rt1c.(map[string]interface{})
+			t.Fatalf("C18 transforming the same resolved state with the other @base option gives a wrong result\n got  %s\n want %s", refJCS(gm["didDocument"]), refJCS(w2["didDocument"]))
+		}
+
 		// generic (non-DID) transformer: document as is plus id, same metadata
 		gtr := doctransformer.New(doctransformer.WithIncludePublishedOperations(o.incPub), doctransformer.WithIncludeUnpublishedOperations(o.incUnpub))
 		rm2 := &protocol.ResolutionModel{Doc: libDoc(doc), RecoveryCommitment: s.recovery, UpdateCommitment: s.update, AnchorOrigin: s.origin,
